@@ -14,7 +14,17 @@ RULE = ("logical documents rendered as binary token streams (keys as token ids /
         "(props/spectie.py; all of them are inside the BinDoc grammar, ghosts included) and the EXTRACTED Coq specification is run on it: "
         "BinDoc.enc_doc must reproduce dedoc.render_bin byte for byte, wf_doc / tape_ok_doc must hold, BinDoc.spec_value (at the entry points' "
         "fuel) must equal dedoc.expected and every path's value, flat_doc must equal the implementation's binary tape; plus hand-made pairs "
-        "from corpus/C04/spec_tie.case (I32 keys, the three strategies, both flavors, rgb, genuine errors)")
+        "from corpus/C04/spec_tie.case (I32 keys, the three strategies, both flavors, rgb, genuine errors).  "
+        # >>> a_c04
+        "wave 4 (props/C04_shapes.py): methods = one target shape per Deserializer method (47 shapes incl. char, &str, bytes, (), unit / "
+        "newtype / tuple structs, i128 / u128, typed-key maps, size-hint recording seq / map) x 18 token kinds with boundary / arbitrary "
+        "payloads x position {value, array element, map key} x 3 strategies x resolver {knows / not / empty; map / lines} x 2 flavors x "
+        "3 paths, reference value computed from the token + pairwise agreement (+ the walk models on the cells they know); root_refused; "
+        "skip_exact = values of every kind skipped through 6 mechanisms at depth 0-3 with single / doubled ghosts and `=`-less container "
+        "fields; size_hint; entry = from_tape / from_slice / from_reader + deserialize() twice, on_failed_resolve after construction, "
+        "with_flavor, BinaryFlavor::deserializer(), & / Box flavors and resolvers, BinaryFlavor::deserialize_reader, on the main "
+        "generator's documents and on configuration-sensitive ones")
+        # <<< a_c04
 TRUSTED = ["serde's primitive visitors (integer range checks, int->float casts) are the real ones and are mirrored in dedoc.expected_scalar_bin",
            "flavor arithmetic (eu4: i32/1000 in f32, Q49.15 rounded to 5 digits; raw: IEEE bits) is recomputed exactly in Python (fractions)",
            # [spec_tie]
@@ -428,6 +438,12 @@ def run(ctx):
         if o != exp and not (path.startswith("reader:16") and o.startswith("ERR")):
             ctx.fail("skip-wide-" + path.split(":")[0], "%s path on a document whose skipped container holds wide payloads returns %s, expected %s (bytes %s)" % (path, o[:120], exp, body.hex()), [pcases[k]], [o], exp)
 
+    # >>> a_c04 (wave 4): every Deserializer method x token kind x position x path, exact skipping at depth, size hints,
+    # the remaining public entry points (props/C04_shapes.py; audit/C04.md)
+    from props import C04_shapes
+    C04_shapes.run(ctx, nt, gen_cases)
+    # <<< a_c04
+
     # scalar level: extracted Serde.bin_scalar against the real on-demand path
     from props import descalar
     ctx.correspond("scalar-tokens", descalar.bin_cases(ctx, ctx.scale(150, 1500)), nontrivial=nt)
@@ -446,6 +462,6 @@ def search(ctx):
 
 CLAIM = {
     "text": "the three binary deserializers and the BinaryFlavor convenience entry points are run through a runtime-shape serde interpreter on generated binary documents x resolvers x strategies x flavors x shapes x buffer sizes/schedules; each result is compared with an independently computed expected value (hence pairwise equal); Coq: see coverage.theorems",
-    "note": "Props/C04_resolver.v: BasicTokenResolver::from_text_lines is modelled byte for byte (Resolver.v: read_line splitting, UTF-8 check, split at the first space, repeated 0x trimming, from_str_radix(16) into u16 with overflow, trim_ascii_end, last line wins) with render/load round-trip, last-wins, rejection, totality and line-partition theorems, and the loaded table is the c_resolve of the walk models (C04_resolver_is_walk_resolver); stream resolver-lines is a real correspondence plus a byte-level oracle. [spec_tie] The specification of the walk theorems (BinDoc.spec_value / enc_doc / flat_doc / wf_doc / tape_ok_doc) is extracted and run on the generated documents: dedoc.render_bin and dedoc.expected are checked against it and every path's value is compared with spec_value directly (stream spec_tie, keys tie-bin-*). Props/C04_walk.v: the three deserializer walks are executable Coq models run from the bytes (stream walk_model); each is proved equal to the specification walk over abstract documents (hence pairwise equal) for all configurations, shapes that fit and well-formed documents, the reader for every fitting capacity and fault-free schedule. Props/C04.v keeps the scalar-level laws. Findings N (u16 target on a token-id value) and O (rgb as an array element) are outside the fitting class and are replayed.",
+    "note": "Props/C04_resolver.v: BasicTokenResolver::from_text_lines is modelled byte for byte (Resolver.v: read_line splitting, UTF-8 check, split at the first space, repeated 0x trimming, from_str_radix(16) into u16 with overflow, trim_ascii_end, last line wins) with render/load round-trip, last-wins, rejection, totality and line-partition theorems, and the loaded table is the c_resolve of the walk models (C04_resolver_is_walk_resolver); stream resolver-lines is a real correspondence plus a byte-level oracle. [spec_tie] The specification of the walk theorems (BinDoc.spec_value / enc_doc / flat_doc / wf_doc / tape_ok_doc) is extracted and run on the generated documents: dedoc.render_bin and dedoc.expected are checked against it and every path's value is compared with spec_value directly (stream spec_tie, keys tie-bin-*). Props/C04_walk.v: the three deserializer walks are executable Coq models run from the bytes (stream walk_model); each is proved equal to the specification walk over abstract documents (hence pairwise equal) for all configurations, shapes that fit and well-formed documents, the reader for every fitting capacity and fault-free schedule. Props/C04.v keeps the scalar-level laws. Findings N (u16 target on a token-id value) and O (rgb as an array element) are outside the fitting class and are replayed. [a_c04, wave 4] Props/C04_value.v: the value clauses of the statement (integers / booleans verbatim, floats through the flavor, strings through the encoding, ids through resolver / strategy, Options, rgb, ignored values) are theorems about the specification walk at any depth and, through C04_struct_on_all_paths, about what the three entry-point models return for a struct target; props/C04_shapes.py reaches every Deserializer method, every public entry point, size hints and exact skipping at depth on the implementation with model-independent oracles; findings P (newtype / enum / Option map keys on the tape path), Q (unit targets on the tape path), R (128-bit targets on the lexer paths).",
     "technique": "machine-checked proof in Coq over an executable model + specification oracle on the implementation",
 }
